@@ -59,6 +59,57 @@ CHECKS = {
              "The 'no data races' clause is decided dynamically over sampled schedules, not exhaustively.",
         design_ref="§4 E1, §5 C19",
     ),
+    "C05": dict(
+        category="exploration",
+        technique="bounded-exhaustive enumeration of keys x frame placements x shard counts on the real hash/partitioner, cross-process table comparison, end-to-end shard observation",
+        text=("Direct: for EVERY value of uint8/int8/uint16/int16/bool, all strings and byte slices up to length 5 over a 3-letter alphabet, fixed lattices (4096 quick / 65536 thorough points incl. extremes, +-0, +-Inf, denormals) "
+              "of the wider integer and float types and 5 two-column prefixes, Frame.Hash and the real default partitioner are evaluated with the key stored at every row position of frames of size 1,3,128 at view offsets 0,1,5, for shard counts 1-8; "
+              "each (key, shard count) must map to exactly one shard in range. The same tables are computed in 3 separately started processes and must be identical. End-to-end: Reduce, Fold, Cogroup, Reshuffle, Reshard, Repartition "
+              "followed by a WriterFunc recording (shard,row), producers with 1-3 shards, both executors: all rows of a key in one shard, same shard across runs, Repartition = user function's value, each distinct key emitted once."),
+        note=TRUSTED + " Wider integer/float types are covered on lattices, not exhaustively; cluster workers run in-process (vsys), cross-process behaviour is covered by the table comparison.",
+        design_ref="§5 C05",
+    ),
+    "C07": dict(
+        category="fault_enumeration",
+        technique="exhaustive enumeration of every single-bit flip, truncation point, short burst and length-message double flip of small encoded streams + bounded-exhaustive round trips",
+        text=("Fidelity: sliceio encoder->decoder round trips over 20 column kinds (all int/uint widths, floats, bool, string, []byte, gob struct, pointer struct, custom codec with session state, array) in 1-3 columns, every batch-length "
+              "sequence over {0..3} up to 3 batches x every destination-length pattern over {1..4}; rows, order, EOF, n<=len(dst) and untouched destination rows are checked on every Read. Corruption: for 20 (quick) / 42 (thorough) streams "
+              "of <=150 bytes EVERY truncation point, EVERY single-bit flip, every 2-3 byte burst of 0x00/0xFF and every pair of bit flips inside each batch-length message is decoded in rlimited child processes; the reader must fail, or deliver "
+              "only a correct prefix and never report a clean end having delivered fewer rows than written (a cut exactly at a batch boundary is a legitimately shorter stream); a crash/OOM/panic counts as failing to report an error."),
+        note=TRUSTED + " One genuine defect is recorded in known_findings.jsonl (huge batch length allocated before the checksum can be verified). Random damage of large streams and coverage-guided fuzzing are other families and not done.",
+        design_ref="§5 C07",
+    ),
+    "C10": dict(
+        category="exploration",
+        technique="bounded-exhaustive enumeration of input sequences x spill/canary/batch sizes x chunkings x destination sizes x error ordinals on the real sortio readers against sequential references",
+        text=("SortReader: every key sequence over a 3-key alphabet up to length 6 (unique payloads), plus long all-equal/descending/strided inputs up to 4x the canary and up to 769 spill runs; canary {1,2,3,256} x spill batch {1,2,128} x "
+              "spill target {1B,16B,1KiB}; destination sizes {1,2,5}; 16 upstream chunkings incl. zero-row non-final reads; an upstream error at every read ordinal; int, string and 2-column keys, sub-byte-per-row codecs. "
+              "Merge reader: k=0..3 sorted streams (some empty), reduce-merge: streams sorted with unique keys. Oracles: sorted permutation / sorted union / one row per key with the exact fold; injected errors are returned, never turned into EOF; "
+              "no spill directory survives reader creation (per-worker TMPDIR listed after every call). Non-trivial = cases that spilled >=2 runs, fired an error, refilled a merge buffer, or folded a key from >=2 streams."),
+        note=TRUSTED + " Spill directories are placed under /dev/shm/c10-<pid>-* (removed on exit) for speed. Quick restricts inner products as stated in evidence.rule; budgets end in exhaustive:false.",
+        design_ref="§5 C10",
+    ),
+    "C15": dict(
+        category="fault_enumeration",
+        technique="explicit enumeration of store operation histories against a map model with a fault injected at every underlying file operation (in-memory fault-injecting file system), and of all retry-reader failure scripts",
+        text=("Task stores: every history of <=4 (quick) / 5 (thorough) operations {Create, Write, Commit, Discard(writer), Open(off in {0,1,len-1,len,len+1}), Stat, Discard(entry)} on two keys, on the real memoryStore and the real fileStore "
+              "(on the vfs:// fault-injecting in-memory implementation of base/file); every fileStore history is re-run once per file-operation label with that operation failing, failing after a partial write, or crashing. "
+              "Oracle: nothing visible before a successful Commit; then exactly the committed bytes from any offset and the record count until discarded; a Commit or Open whose underlying operation failed returns an error. "
+              "retryReader: committed 6-byte stream, EVERY opener script over {deliver 1-3 bytes, fail, deliver k then fail, open fails} up to retry budget+2 (budget read from the real policy object), with and without recovery: "
+              "exactly the stream or an error, and an error only after the budget is exhausted."),
+        note=TRUSTED + " The vfs package models close-commit atomicity of real file implementations (self-checked at start). Fault pairs are not enumerated; the sliceio decoding layer above retryReader is not driven here.",
+        design_ref="§4 E3, §5 C15",
+    ),
+    "C20": dict(
+        category="model_checking",
+        technique="explicit-state enumeration of metric-scope operation sequences against a map model; controlled-scheduler exploration of concurrent scope use; end-to-end counter totals on both executors",
+        text=("Sequences: with 1, 2 and 3 registered counters and 3 scopes, every sequence over {Incr(c,s,+-1), Value, Merge(s,t), Reset(s,t), Reset(s,nil), gob round trip, worker->driver transport} to depth 3 (quick, all) / "
+              "5-7 (thorough, de-duplicated on presence/sharing/value of every slot) is replayed on fresh real scopes and compared with a map model after every step. Concurrency (layer S, flavour schedm: package metrics' atomics are "
+              "scheduling points): 2-3 threads Incr/Merge/Value one fresh scope (CAS creation of the instance list and instances), all schedules up to preemption bound 3 (+ delay bound 6 thorough) - final totals must be the sums. "
+              "End-to-end: programs incrementing counters per row, 1-3 shards, with and without shuffles, both executors: Result.Scope() totals equal rows processed, once per task."),
+        note=TRUSTED + " vsched assumptions as for C03.",
+        design_ref="§5 C20",
+    ),
 }
 
 NOT_YET = "check designed in DESIGN.md §5 but not yet built/validated in this tree; not claimed"
